@@ -80,16 +80,30 @@ def template(draw):
                 fr["tr"] = ["abs", fr["tr"][1]]
         if nested and nested.get("via") == "main":
             nested["via"] = None
-    return {"body": body, "nested": nested, "clones": clones, "rear": rear, "use_m": use_m,
+    # frame hierarchy inside the cloned framer: an enclosing top frame, optionally with an explicit primary
+    # under frame chosen with the `under` verb (the clone must start in the same outline as its original)
+    hier = draw(st.sampled_from([None, None, {"under": None}, {"under": draw(st.integers(0, nfr - 1))},
+                                 {"under": draw(st.integers(0, nfr - 1))}]))
+    return {"body": body, "nested": nested, "clones": clones, "rear": rear, "use_m": use_m, "hier": hier,
             "t1": draw(st.integers(1, 6)), "t2": draw(st.integers(1, 6)), "t3": draw(st.integers(1, 5)), "t4": draw(st.integers(1, 5)),
             "loop": draw(st.booleans()), "ticks": draw(st.integers(8, 26)), "mainvia": draw(st.booleans())}
 
 
-def moot_lines(name, body, nested, sched, use_m=False):
+def moot_lines(name, body, nested, sched, use_m=False, hier=None):
     L = ["framer %s be %s" % (name, sched)]
+    if hier:
+        L.append("frame %sT" % name[0].upper())
+        if hier.get("under") is not None:
+            L.append("under %s%d" % (name[0].upper(), hier["under"]))
+        # relative shares are initialised before they are read: with an explicit primary under the first body
+        # frame may never be entered, so the initialisation sits in the top frame
+        L += ["enter", "put 1 into top of framer", "put 0 into cnt of framer"]
+        if use_m:
+            L.append("put 0 into m of me")
+        L += ["recur", "inc top of framer with 1"]
     for i, fr in enumerate(body):
-        L.append("frame %s%d" % (name[0].upper(), i))
-        if i == 0:
+        L.append("frame %s%d" % (name[0].upper(), i) + (" in %sT" % name[0].upper() if hier else ""))
+        if i == 0 and not hier:
             L.append("put 0 into cnt of framer")   # relative shares are initialised before they are read
             if use_m:
                 L.append("put 0 into m of me")
@@ -173,7 +187,7 @@ def script(tp, baseline=None):
         L.append(("raze %s in frame f4" % rear["raze"]) if baseline is None else PLACEHOLDER)
     L.append("go f4 if elapsed >= %s" % (0.125 * tp["t4"]) if tp["loop"] else "go f1 if elapsed >= %s" % (0.125 * tp["t4"]))
     sched = "moot" if baseline is None else "aux"
-    L += moot_lines("org", tp["body"], tp["nested"], sched, tp.get("use_m"))
+    L += moot_lines("org", tp["body"], tp["nested"], sched, tp.get("use_m"), tp.get("hier"))
     if tp.get("use_m"):
         L += ["framer inner0 be moot", "frame I0", "put 0 into m of me", "recur", "inc m of me with 1", "go next if m of me >= 3",
               "frame I1", "done me"]
